@@ -553,6 +553,10 @@ impl WriteBackend for LocalBackend {
                 return Err(err);
             }
         }
+        // verification hook: the temporary file is complete and synced, not yet published
+        #[cfg(rustic_rs_rustic_core_verif)]
+        verif_hook::pre_publish(&filename_tmp, &filename);
+
         // rename temporary file to real file
         fs::rename(&filename_tmp, &filename).map_err(|err| {
             RusticError::with_source(
@@ -601,5 +605,43 @@ impl WriteBackend for LocalBackend {
             warn!("post-delete: {}", err.display_log());
         }
         Ok(())
+    }
+}
+
+/// Verification hook (compiled only with `--cfg rustic_rs_rustic_core_verif`).
+///
+/// A per-thread callback that [`LocalBackend::write_bytes`] invokes after the temporary
+/// file has been written and synced and before it is renamed to its final name. The
+/// callback receives the temporary and the final path. It may inspect the directory
+/// (e.g. list it through a second backend handle) or unwind to simulate a crash at this
+/// point. Without the cfg this module does not exist and `write_bytes` is unchanged.
+#[cfg(rustic_rs_rustic_core_verif)]
+pub mod verif_hook {
+    use std::{cell::RefCell, path::Path};
+
+    /// The callback type: `(temporary path, final path)`.
+    pub type PrePublish = Box<dyn FnMut(&Path, &Path)>;
+
+    thread_local! {
+        static PRE_PUBLISH: RefCell<Option<PrePublish>> = const { RefCell::new(None) };
+    }
+
+    /// Install (or clear, with `None`) the callback of the current thread.
+    pub fn set_pre_publish(cb: Option<PrePublish>) {
+        PRE_PUBLISH.with(|c| *c.borrow_mut() = cb);
+    }
+
+    pub(super) fn pre_publish(tmp: &Path, dst: &Path) {
+        // take the callback out while it runs so that it may re-enter the backend
+        let cb = PRE_PUBLISH.with(|c| c.borrow_mut().take());
+        if let Some(mut cb) = cb {
+            cb(tmp, dst);
+            PRE_PUBLISH.with(|c| {
+                let mut slot = c.borrow_mut();
+                if slot.is_none() {
+                    *slot = Some(cb);
+                }
+            });
+        }
     }
 }
